@@ -9,7 +9,7 @@ whether an unlisted VIOLATION was reported. Result goes to
 import sys, os, json, subprocess, shutil, time
 src, sid, checks = sys.argv[1], sys.argv[2], sys.argv[3:]
 ENV = dict(os.environ, GOFLAGS="-mod=mod", GOPROXY="off", GOSUMDB="off", GOTOOLCHAIN="local")
-wt = "/tmp/scratch/main/sv-" + sid
+wt = "/tmp/mainscratch/sv-" + sid
 def sh(cmd, cwd=None, timeout=900, env=ENV):
     try:
         p = subprocess.run(cmd, shell=True, cwd=cwd, env=env, stdout=subprocess.PIPE, stderr=subprocess.STDOUT, text=True, timeout=timeout)
